@@ -326,3 +326,89 @@ func sliceLiteral(x *ssa.Slice, b *Builder, mem localMem, priv map[ssa.Value]boo
 	}
 	return &Term{Op: "list", Args: elems}
 }
+
+// Path-sensitive content of non-local memory.
+//
+// A field of the receiver (or a map cell) that the function stores on a path
+// holds the stored value for a later load on the same path - until something
+// that may write it happens: a call of a function not known to be free of
+// writes, a store to the same field through another base (which may alias), the
+// symbolic re-entry of a loop. Without this, the load after the store would
+// denote the same term as a load before it, and two tests of "the same"
+// location at different times could wrongly be taken for contradictory.
+
+type heapEntry struct {
+	loc *Term
+	val *Term
+}
+
+type heapMem map[string]heapEntry
+
+func (h heapMem) clone() heapMem {
+	n := make(heapMem, len(h)+2)
+	for k, v := range h {
+		n[k] = v
+	}
+	return n
+}
+
+// store records *loc = val and forgets whatever may alias loc.
+func (h heapMem) store(loc, val *Term) heapMem {
+	n := heapMem{}
+	k := loc.Key()
+	for ek, e := range h {
+		if ek == k {
+			continue
+		}
+		// a different field cannot alias; the same field of another base term may (two ways to the same object)
+		if loc.Op == OField && e.loc.Op == OField && e.loc.Obj != loc.Obj {
+			n[ek] = e
+			continue
+		}
+		if loc.Op == OField && e.loc.Op == OLookup {
+			n[ek] = e // a map cell is not a struct field
+			continue
+		}
+	}
+	n[k] = heapEntry{loc: loc, val: val}
+	return n
+}
+
+// storeCell records m[key] = val.
+func (h heapMem) storeCell(m, key, val *Term) heapMem {
+	n := heapMem{}
+	cell := &Term{Op: OLookup, Args: []*Term{m, key}}
+	for ek, e := range h {
+		if e.loc.Op == OLookup {
+			continue // another cell of a map that may be the same map
+		}
+		n[ek] = e
+	}
+	n[cell.Key()] = heapEntry{loc: cell, val: val}
+	return n
+}
+
+func (h heapMem) load(loc *Term) *Term {
+	if e, ok := h[loc.Key()]; ok {
+		return e.val
+	}
+	return nil
+}
+
+// keepsHeap: a call of this function cannot write memory the caller reads afterwards (string, number and error
+// helpers of the standard library and of github.com/goark/errs).
+func keepsHeap(callee *ssa.Function) bool {
+	if callee == nil || callee.Pkg == nil {
+		return false
+	}
+	switch callee.Pkg.Pkg.Path() {
+	case "strings", "strconv", "math", "errors", "unicode", "unicode/utf8", "github.com/goark/errs":
+		return callee.Signature.Recv() == nil
+	case "fmt":
+		switch callee.Name() {
+		case "Sprintf", "Sprint", "Sprintln", "Errorf":
+			return true
+		}
+	}
+	return false
+}
